@@ -13,7 +13,7 @@ From LE Require Import Base.
 Open Scope string_scope.
 
 Inductive top :=
-| TAssumeLeader (b : bool) | TAssumeRunDead
+| TAssumeLeader (b : bool) | TAssumeRunDead | TAssumeTerm (b : bool)
 | TSetLeader (b : bool)
 | TCancelTerm | TClearTerm | TNewTerm
 | TCancelRun | TNewRun | TClearRun
@@ -30,6 +30,7 @@ Definition exec_op (s : tstate) (o : top) : option tstate :=
   match o with
   | TAssumeLeader b => if Bool.eqb (t_il s) b then Some s else None
   | TAssumeRunDead => if t_run s then None else Some s
+  | TAssumeTerm b => if Bool.eqb (match t_cur s with Some _ => true | None => false end) b then Some s else None
   | TSetLeader b => Some (mkTS b (t_run s) (t_cur s) (t_stale s))
   | TCancelTerm => Some (mkTS (t_il s) (t_run s) (option_map (fun _ => false) (t_cur s)) (t_stale s))
   | TClearTerm => Some (mkTS (t_il s) (t_run s) None (t_stale s || cur_live s))
